@@ -1,7 +1,7 @@
 (* C18: (1) the values selected downstream of the index pairs never come from row 0 / column 0 for a point outside;
         (2) the area's own pixel centres map back to their cell in every module (composition with the canonical map);
         (3) the independently written models of C01 (masked_ints), C07 (bucket) and C08 (ll2cr) are the same functions. *)
-From Coq Require Import Reals ZArith Lra Lia Bool.
+From Coq Require Import Reals ZArith Lra Lia Bool List.
 From Flocq Require Import Zaux Raux Generic_fmt Round_NE.
 From PR Require Import Base.Num Base.RNum Model.Grid Model.CellIndex Model.CellSample
      Proofs.Grid_real Proofs.C18_axis Proofs.C18_real.
@@ -131,3 +131,39 @@ Lemma c08_ll2cr_same (a : area R) fill x y :
 Proof.
   unfold EWA.ll2cr_pixel, ll2cr_point. rewrite big_same. destruct (leb RO (big_1e30 RO) x); reflexivity.
 Qed.
+
+(* ---------------------------------------------------------------- (4) joint evaluation of several bucket resamplers *)
+Section Joint.
+  Context {T : Type} (OP : ops T).
+  (* task names identify what the task computes: equal names only for equal projection outputs *)
+  Definition keys_sound (rs : list (resampler (T := T))) : Prop :=
+    forall r1 r2, In r1 rs -> In r2 rs -> rs_key r1 = rs_key r2 -> rs_proj r1 = rs_proj r2.
+
+  Lemma glookup_own (rs : list resampler) r : keys_sound rs -> In r rs -> glookup (rs_key r) (map rs_task rs) = Some (rs_proj r).
+  Proof.
+    intros K. induction rs as [| r0 rs IH]; intros Hin; [destruct Hin |]. cbn [map glookup rs_task fst snd].
+    destruct (Z.eqb_spec (rs_key r) (rs_key r0)) as [E | N].
+    - f_equal. symmetry. apply K; [exact Hin | left; reflexivity | exact E].
+    - destruct Hin as [-> | Hin]; [contradiction |]. apply IH; [| exact Hin].
+      intros r1 r2 H1 H2. apply K; right; assumption.
+  Qed.
+
+  Lemma standalone_eq r : rs_standalone OP r = map (fun p => bk_xy OP (rs_area r) (fst p) (snd p)) (rs_proj r).
+  Proof. unfold rs_standalone, rs_indices. cbn. rewrite Z.eqb_refl. reflexivity. Qed.
+
+  Lemma joint_is_standalone (rs : list resampler) : keys_sound rs -> rs_joint OP rs = map (rs_standalone OP) rs.
+  Proof.
+    intros K. unfold rs_joint. apply map_ext_in. intros r Hin. rewrite standalone_eq.
+    unfold rs_indices. rewrite (glookup_own rs r K Hin). reflexivity.
+  Qed.
+
+  Lemma nodup_keys_sound (rs : list resampler) : NoDup (map rs_key rs) -> keys_sound rs.
+  Proof.
+    induction rs as [| r0 rs IH]; intros ND r1 r2 H1 H2 E; [destruct H1 |].
+    inversion ND as [| ? ? Hn ND']; subst.
+    destruct H1 as [<- | H1]; destruct H2 as [<- | H2]; try reflexivity.
+    - exfalso. apply Hn. rewrite E. apply in_map. exact H2.
+    - exfalso. apply Hn. rewrite <- E. apply in_map. exact H1.
+    - apply IH; assumption.
+  Qed.
+End Joint.
